@@ -119,24 +119,49 @@ func toCVC(q string) string {
 	return b.String()
 }
 
-// discharge runs all obligations of all function results.
+// discharge runs all obligations of all function results. Obligations of one
+// group (the ensures clauses at one return) are first tried as one conjunction.
 func discharge(results []*FuncResult, workDir string, timeoutS int, thorough bool, jobs int) {
 	os.MkdirAll(workDir, 0o755)
 	type job struct {
-		o   *Obligation
+		os  []*Obligation
 		pre string
 		idx int
 	}
 	var js []job
 	n := 0
 	for _, r := range results {
+		groups := map[int]int{} // group -> index in js
 		for _, o := range r.Obligations {
 			n++
-			js = append(js, job{o, r.Preamble, n})
+			if o.Group > 0 {
+				if gi, ok := groups[o.Group]; ok {
+					js[gi].os = append(js[gi].os, o)
+					continue
+				}
+				groups[o.Group] = len(js)
+			}
+			js = append(js, job{[]*Obligation{o}, r.Preamble, n})
 		}
 	}
 	var wg sync.WaitGroup
 	sem := make(chan struct{}, jobs)
+	runOne := func(o *Obligation, pre string, idx int) {
+		q := o.Query(pre)
+		f := filepath.Join(workDir, fmt.Sprintf("%04d_%s.smt2", idx, sanitize(o.Name)))
+		if len(f) > 200 {
+			f = f[:200] + ".smt2"
+		}
+		os.WriteFile(f, []byte(q), 0o644)
+		cf := ""
+		if thorough {
+			cf = strings.TrimSuffix(f, ".smt2") + ".cvc5.smt2"
+			os.WriteFile(cf, []byte(toCVC(q)), 0o644)
+		}
+		o.File = f
+		r := solve(f, timeoutS, thorough, cf)
+		o.Status, o.Solver, o.Ms, o.Output = r.status, r.solver, r.ms, r.output
+	}
 	for _, j := range js {
 		j := j
 		wg.Add(1)
@@ -144,20 +169,35 @@ func discharge(results []*FuncResult, workDir string, timeoutS int, thorough boo
 		go func() {
 			defer wg.Done()
 			defer func() { <-sem }()
-			q := j.o.Query(j.pre)
-			f := filepath.Join(workDir, fmt.Sprintf("%04d_%s.smt2", j.idx, sanitize(j.o.Name)))
-			if len(f) > 200 {
-				f = f[:200] + ".smt2"
+			if len(j.os) == 1 {
+				runOne(j.os[0], j.pre, j.idx)
+				return
 			}
-			os.WriteFile(f, []byte(q), 0o644)
-			cf := ""
-			if thorough {
-				cf = strings.TrimSuffix(f, ".smt2") + ".cvc5.smt2"
-				os.WriteFile(cf, []byte(toCVC(q)), 0o644)
+			// combined query
+			seen := map[string]bool{}
+			var assumes []string
+			var goals []string
+			for _, o := range j.os {
+				for _, a := range o.Assumes {
+					if !seen[a] {
+						seen[a] = true
+						assumes = append(assumes, a)
+					}
+				}
+				goals = append(goals, o.Goal)
 			}
-			j.o.File = f
-			r := solve(f, timeoutS, thorough, cf)
-			j.o.Status, j.o.Solver, j.o.Ms, j.o.Output = r.status, r.solver, r.ms, r.output
+			comb := &Obligation{Name: j.os[0].Name + "+group", Clause: fmt.Sprintf("%d clauses at one return", len(j.os)), Where: j.os[0].Where, Trace: j.os[0].Trace, Assumes: assumes, Goal: and(goals...)}
+			runOne(comb, j.pre, j.idx)
+			if comb.Status == "unsat" {
+				for _, o := range j.os {
+					o.Status, o.Solver, o.Ms, o.File = "unsat", comb.Solver, comb.Ms/int64(len(j.os)), comb.File
+				}
+				return
+			}
+			for k, o := range j.os {
+				o.Assumes = assumes
+				runOne(o, j.pre, j.idx*100+k)
+			}
 		}()
 	}
 	wg.Wait()
